@@ -5,8 +5,8 @@ from . import base
 ID = 'C12'
 LEVEL = 'exploration'
 PLAN = {
-    'quick': [('synth', 26000)],
-    'thorough': [('synth', 1000000)],
+    'quick': [('synth', 26000), ('shipped', 800)],
+    'thorough': [('synth', 1000000), ('shipped', 36000)],
 }
 DEADLINE = {'quick': 200, 'thorough': 3300}
 PROBES = ['wrong-type-rejected', 'none-or-blank-stored-as-empty', 'nontrivially-rounded-float-read-by-another-line']
@@ -86,7 +86,14 @@ def replay(rec):
     return evaluate(rec['case'], rec.get('engine'))
 
 
-minimise = base.make_minimiser(lambda c, e: evaluate(c, e))
+_min_synth = base.make_minimiser(lambda c, e: evaluate(c, e))
+
+
+def minimise(v):
+    if str(v.get('engine', '')).startswith('shipped'):
+        from . import shipped_props
+        return shipped_props.minimise(ID, v)
+    return _min_synth(v)
 
 
 def coverage(accs, total):
